@@ -13,7 +13,7 @@ HARNESSES = [
       stubs=['phantom Chainstate: m_chain (CChain, vector size set directly), m_from_snapshot_blockhash, m_assumeutxo, m_cached_snapshot_base, m_chainman/m_blockman reference slots',
              'node::BlockManager::LookupBlockIndex -> the harness snapshot-base block', 'assertion_fail -> CBMC assertion', 'tinyformat -> empty strings'],
       bounds='all 31-bit tip heights incl. empty chain, all 32-bit requested heights, all snapshot-base heights; loop-free'),
-    H('prunefiles', 'prunefiles.cpp', 'h_prunefiles', link=['node/blockstorage.cpp', 'validation.cpp'], entries=ENT, shadow=['nofmt'], noop=NOLOG, unwind=6, defines={'SETSTUB': 1}, memunwind=168, timeout=300, objbits=10,
+    H('prunefiles', 'prunefiles.cpp', 'h_prunefiles', link=['node/blockstorage.cpp', 'validation.cpp'], entries=ENT, shadow=['nofmt'], noop=NOLOG, unwind=6, unwindset=RBSET, memunwind=168, timeout=300, objbits=10,
       functions=['node::BlockManager::FindFilesToPrune', 'FindFilesToPruneManual', 'CalculateCurrentUsage', 'MaxBlockfileNum', 'Chainstate::GetPruneRange', 'ChainstateManager::HistoricalChainstate', 'IsInitialBlockDownload'],
       stubs=['wip'],
       bounds='wip'),
